@@ -19,11 +19,12 @@ import (
 
 // C06 — Compile is total: no panic, crash or hang; exactly one of (expr, error).
 
-const ruleC06 = "rapid: valid expression text from all fragments (incl. unconstrained ones) or token soup, then 0-3 byte-level mutations (delete / duplicate a range, flip a byte, insert a token from a dictionary of XPath tokens, quotes, brackets, NUL, invalid UTF-8, multi-byte names) x namespace configuration (Compile; CompileWithNS with nil, empty, binding and non-binding maps). deep: every recursive construct of the grammar ('(', 'a[', 'f(', 'a/(', 'a/(b,', '-', 'a/', 'a//', '[1]', '1+', 'a|', 'or', '=', alternations of two) nested to depth 10^2..10^5 under an 8 MB maximum stack (quick) or ..3*10^6 under the default 1 GB stack (thorough), closed and unclosed, each journalled before it runs so that a dying process is attributed. thorough also: native go fuzzing of the same oracle. Oracle: Compile/CompileWithNS return exactly one of (non-nil expr, non-nil error); no panic escapes; the process survives; MustCompile returns a usable non-nil expression; a returned expression answers String() with the input; every call returns within a generous wall-clock margin (re-tried once in isolation). Non-trivial: the input was mutated, or is soup, or is a depth case; distinct by input bytes + namespace configuration."
+const ruleC06 = "rapid: valid expression text from all fragments (incl. unconstrained ones) or token soup, then 0-3 byte-level mutations (delete / duplicate a range, flip a byte, insert a token from a dictionary of XPath tokens, quotes, brackets, NUL, invalid UTF-8, multi-byte names) x namespace configuration (Compile; CompileWithNS with nil, empty, binding and non-binding maps). mixed: alternations of two constructs (predicate/function, predicate/arithmetic, parenthesis/union, sequence/predicate/function ...) at depths 2..198, whose compile cost must stay polynomial; deep: every recursive construct of the grammar ('(', 'a[', 'f(', 'a/(', 'a/(b,', '-', 'a/', 'a//', '[1]', '1+', 'a|', 'or', '=', alternations of two) nested to depth 10^2..10^5 under an 8 MB maximum stack (quick) or ..3*10^6 under the default 1 GB stack (thorough), closed and unclosed, each journalled before it runs so that a dying process is attributed. thorough also: native go fuzzing of the same oracle. Oracle: Compile/CompileWithNS return exactly one of (non-nil expr, non-nil error); no panic escapes; the process survives; MustCompile returns a usable non-nil expression; a returned expression answers String() with the input; every call returns within a generous wall-clock margin (re-tried once in isolation). Non-trivial: the input was mutated, or is soup, or is a depth case; distinct by input bytes + namespace configuration."
 
 var (
 	uC06Rapid = harness.NewUnit("C06", "rapid-mutated-inputs", ruleC06)
 	uC06Deep  = harness.NewUnit("C06", "enum-deep-nesting", ruleC06)
+	uC06Mixed = harness.NewUnit("C06", "enum-mixed-nesting", ruleC06)
 )
 
 func init() {
@@ -31,6 +32,21 @@ func init() {
 		in := inputOf(l)
 		_, f := checkCompileTotal(in, l.HasNS, l.NSMap)
 		return f
+	})
+	harness.RegisterOracle("C06/mixed", func(l *harness.Live) *harness.Failure {
+		name, _ := l.Params["construct"].(string)
+		closed, _ := l.Params["closed"].(bool)
+		depth, _ := l.Params["depth"].(float64)
+		if d, ok := l.Params["depth"].(int); ok {
+			depth = float64(d)
+		}
+		for _, c := range mixedConstructs {
+			if c.name == name {
+				_, f := checkCompileTotal(c.build(int(depth), closed), false, nil)
+				return f
+			}
+		}
+		return harness.Failf("known construct", name, "unknown mixed construct")
 	})
 	harness.RegisterOracle("C06/deep", func(l *harness.Live) *harness.Failure {
 		name, _ := l.Params["construct"].(string)
@@ -72,7 +88,27 @@ func checkCompileTotal(s string, hasNS bool, ns map[string]string) (accepted boo
 	}
 	try := func() (bool, time.Duration, *harness.Failure) {
 		t0 := time.Now()
-		e, err, pan := harness.Compile(s, ns, hasNS)
+		type res struct {
+			e   *xpath.Expr
+			err error
+			pan *harness.PanicInfo
+		}
+		ch := make(chan res, 1)
+		// in a goroutine of its own so that a call that does not come back can be reported
+		// (the goroutine is abandoned; the process ends with the report)
+		go func() {
+			e, err, pan := harness.Compile(s, ns, hasNS)
+			ch <- res{e, err, pan}
+		}()
+		var e *xpath.Expr
+		var err error
+		var pan *harness.PanicInfo
+		select {
+		case r := <-ch:
+			e, err, pan = r.e, r.err, r.pan
+		case <-time.After(limit + limit/2):
+			return false, time.Since(t0), nil
+		}
 		dt := time.Since(t0)
 		if pan != nil {
 			return false, dt, harness.Failf("an error or an expression", pan.String(), "a panic escaped from Compile")
@@ -280,6 +316,57 @@ var deepConstructs = []deepConstruct{
 	{"equals", func(n int, _ bool) string { return rep("a=", n) + "a" }},
 	{"abbrev-parent", func(n int, _ bool) string { return rep("../", n) + ".." }},
 	{"concat-args", func(n int, _ bool) string { return "concat(" + rep("a,", n) + "a)" }},
+}
+
+// mixedConstructs nest two different constructs alternately; their cost must
+// stay polynomial, so they are tried at moderate depths below the parser's limit.
+var mixedConstructs = []deepConstruct{
+	{"predicate-count", nest("a[count(", "a[1]", ")]")},
+	{"predicate-arith", nest("a[1+", "a[1]", "]")},
+	{"predicate-not-path", nest("a[not(b/", "a", ")]")},
+	{"count-predicate-eq", nest("count(a[", "b", "=1])")},
+	{"paren-union", nest("(a|", "b", ")")},
+	{"predicate-position", nest("a[position()=", "1", "]")},
+	{"predicate-string-fn", nest("a[contains(string(", ".", "),'x')]")},
+	{"sequence-predicate-fn", nest("a/(b[count(", "c", ")>0])")},
+	{"neg-paren", nest("-(", "1", ")")},
+	{"filter-filter", nest("(a[", "1", "])[1]")},
+}
+
+func TestC06Mixed(t *testing.T) {
+	journal := harness.OpenJournal()
+	shard, shards := harness.Shard()
+	var total int64
+	idx := 0
+	for _, depth := range []int{2, 4, 8, 12, 16, 20, 24, 28, 32, 40, 50, 64, 80, 100, 150, 198} {
+		for _, c := range mixedConstructs {
+			for _, closed := range []bool{true, false} {
+				idx++
+				if idx%shards != shard {
+					continue
+				}
+				in := c.build(depth, closed)
+				l := &harness.Live{Property: "C06", Check: "C06/mixed", Expr: clip(in),
+					Params: map[string]interface{}{"construct": c.name, "depth": depth, "closed": closed}}
+				journal.Record(l.Save())
+				acc, f := checkCompileTotal(in, false, nil)
+				if f != nil {
+					harness.Report(t, uC06Mixed, l, f)
+				}
+				total++
+				res := "rejected"
+				if acc {
+					res = "accepted"
+				}
+				uC06Mixed.Case(harness.Hash64(c.name, fmt.Sprint(depth, closed)), true, []string{"construct:" + c.name, fmt.Sprintf("depth:%d", depth), res}, func() interface{} {
+					return map[string]interface{}{"construct": c.name, "depth": depth, "closed": closed, "input": clip(in), "result": res}
+				})
+			}
+		}
+	}
+	journal.Close()
+	uC06Mixed.SetExhaustive(total)
+	uC06Mixed.Done(total)
 }
 
 func TestC06Deep(t *testing.T) {
